@@ -11,20 +11,23 @@ inductive Val where
 
 def allDigits (s : String) : Bool := !s.isEmpty && s.all (fun c => '0' ≤ c && c ≤ '9')
 
-/-- the transformer on this universe (what `int(...)` / `str(...)` annotations do to ints and strings) -/
-def convVal (t : String) (v : Val) : Option Val :=
+/-- the transformer on this universe (what `int(...)` / `str(...)` annotations do to ints and strings); under
+`Options(no_explicit_cast=True)` a value only converts within its own type -/
+def convVal (strict : Bool) (t : String) (v : Val) : Option Val :=
   match t, v with
   | "int", .int i => some (.int i)
-  | "int", .str s => if allDigits s then some (.int s.toNat!) else none
+  | "int", .str s => if !strict && allDigits s then some (.int s.toNat!) else none
   | "str", .str s => some (.str s)
-  | "str", .int i => some (.str (toString i))
+  | "str", .int i => if strict then none else some (.str (toString i))
   | _, _ => none
 
-def W0 : World String Val String where
-  conv := convVal
+def Wof (strict : Bool) : World String Val String where
+  conv := convVal strict
   priv := fun n => n.startsWith "_"
   lower := String.toLower
   noneV := .obj "None"
+
+def W0 : World String Val String := Wof false
 
 def valOf (j : Json) : Val :=
   match obj? j "i" with
@@ -88,7 +91,15 @@ def mkOpts (j : Json) : Opts :=
   { dfs := match obj? j "data_first_search" with
       | none => some false
       | some v => v.getBool?.toOption
-    ignoreAliasConflicts := bool! (fld j "ignore_alias_conflicts") }
+    ignoreAliasConflicts := bool! (fld j "ignore_alias_conflicts")
+    -- Options(addition=…): absent / null = unset, false = False, true or {"type": …} = truthy
+    addition := match obj? j "addition" with
+      | none => none
+      | some v => if isNull v then none else match v.getBool?.toOption with
+        | some b => some b
+        | none => some true
+    noDataLoss := bool! (fld j "no_data_loss")
+    ignoreRequired := bool! (fld j "ignore_required") }
 
 /-! generator scripts: state = number of yields done; step k yields a constant or echoes what it was resumed with -/
 structure Script where
@@ -150,6 +161,7 @@ def handle (j : Json) : Json :=
                      fromClass := bool! (fld c "from_class"), dotted := bool! (fld c "dotted") }
   let args := (arr! (fld j "args")).map valOf
   let kw := pairs (fld j "kwargs")
+  let W0 := Wof (bool! (fld o "no_explicit_cast"))
   let out := callDecl W0 ctx full (mkOpts o) args kw
   -- the specification is evaluated on the signature as the caller sees it (`spec_params`: bound first parameter removed)
   let ss := mkSig ciOpt (arr! (fld j "spec_params"))
@@ -162,7 +174,7 @@ def handle (j : Json) : Json :=
     | some r => match parseResult W0 (optStr (fld j "ret")) (valOf r) with
       | .ok v => jsonOf v
       | .perr => Json.str "perr"
-  Json.mkObj [("model", outcomeJson out), ("spec", spec), ("ret", ret),
+  Json.mkObj [("model", outcomeJson out), ("spec", spec), ("ret", ret), ("decl_ok", Json.bool (declOk full (mkOpts o))),
               ("reserve", Json.bool (firstReserve ctx full))]
 
 def main : IO Unit := serve handle
